@@ -407,6 +407,9 @@ def leaf_sorts(shape):
         return out
     if k == "opaque":
         return [opaque_sort(shape[1])]
+    if k == "list":
+        # a list as a VALUE inside another container (dict of lists): one array per element leaf, plus the length
+        return [z3.ArraySort(IntS, ls) for ls in leaf_sorts(shape[1])] + [IntS]
     raise ValueError(f"shape {shape!r} has no scalar leaves")
 
 
@@ -430,6 +433,14 @@ def flatten(v, shape):
         return out
     if k == "opaque":
         return [v.z]
+    if k == "list":
+        if v.concrete:
+            sorts = leaf_sorts(shape[1])
+            arrs = [z3.K(IntS, default_leaf(ls)) for ls in sorts]
+            for i, x in enumerate(v.items):
+                arrs = [z3.Store(a, z3.IntVal(i), l) for a, l in zip(arrs, flatten(x, shape[1]))]
+            return arrs + [z3.IntVal(len(v.items))]
+        return list(v.arrs) + [v.length]
     raise ValueError(f"cannot flatten {shape!r}")
 
 
@@ -442,6 +453,8 @@ def default_leaf(sort):
         return z3.RealVal(0)
     if sort == StrS:
         return z3.StringVal("")
+    if sort.kind() == z3.Z3_ARRAY_SORT:
+        return z3.K(sort.domain(), default_leaf(sort.range()))
     return z3.Const("dflt_" + str(sort), sort)
 
 
@@ -467,6 +480,10 @@ def unflatten(shape, leaves):
         return VTuple([unflatten(s, leaves) for s in shape[1]])
     if k == "opaque":
         return VOpaque(leaves.pop(0), shape[1])
+    if k == "list":
+        n = len(leaf_sorts(shape[1]))
+        arrs = [leaves.pop(0) for _ in range(n)]
+        return VList(None, shape=shape[1], arrs=arrs, length=leaves.pop(0))
     raise ValueError(f"cannot unflatten {shape!r}")
 
 
